@@ -731,6 +731,14 @@ def g_new(ctx, heap):
             if kind == "F":
                 spec["oddpos"] = ctx.labels.next() if g.parity(untuple(charge)) else None
             return [{"op": "new", "in": [], "out": [ctx.fresh()], "a": {"spec": spec}}]
+    if ctx.rng.random() < 0.03 and getattr(ctx, "constructors", True):
+        # a rank-0 array (no indices), with the identity or with another total
+        # charge (then it has no valid sector and must stay block-less)
+        sym = ctx.rng.choice(list(ctx.syms))
+        ch = GROUPS[sym].zero if ctx.rng.random() < 0.4 else ctx.rng.choice(specs.CHARGE_POOL[sym])
+        spec = ctx.new_spec(sym=sym, indices=[], charge=ch, sparsity=0.0)
+        spec["via"] = ctx.rng.choice(["init", "random", "from_fill_fn"])
+        return [{"op": "new", "in": [], "out": [ctx.fresh()], "a": {"spec": spec}}]
     if ctx.rng.random() < 0.06:
         # a one-element array of rank 1-3 (scalar-like, but not 0-d)
         sym = ctx.rng.choice(list(ctx.syms))
@@ -1382,7 +1390,7 @@ def g_sync_charges(ctx, heap):
 def g_fill_drop(ctx, heap):
     if ctx.p_inplace <= 0:
         return None
-    n = _pick(ctx, heap, pred=lambda v: v.num_blocks > 0)
+    n = _pick(ctx, heap, pred=lambda v: v.num_blocks > 0 or v.ndim == 0)
     if n is None:
         return None
     op = ctx.rng.choice(["fill_missing_blocks", "drop_missing_blocks"])
@@ -1460,7 +1468,10 @@ def g_arith2(ctx, heap):
             steps.append({"op": "copy", "in": [n], "out": [nb], "a": {}})
         else:
             nb = ctx.fresh()
-            spec = _same_shape_partner(ctx, x, same_sectors=(op == "sub" or rng.random() < 0.5))
+            # (subtraction refuses operands with different sector sets, in
+            # either form: mostly matching sectors, sometimes not)
+            spec = _same_shape_partner(
+                ctx, x, same_sectors=(rng.random() < (0.75 if op == "sub" else 0.5)))
             steps.append({"op": "new", "in": [], "out": [nb], "a": {"spec": spec}})
     if ctx.inplace():
         steps.append({"op": "i" + op, "in": [n, nb], "out": [n], "a": {}})
